@@ -268,8 +268,11 @@ func sameModuloAttrOrder(a, b string) bool {
 		return false
 	}
 	for i := range ta {
-		if ta[i].Type != tb[i].Type || ta[i].Name != tb[i].Name || len(ta[i].Attr) != len(tb[i].Attr) {
+		if ta[i].Type != tb[i].Type || ta[i].Name != tb[i].Name || len(ta[i].Attr) != len(tb[i].Attr) || len(ta[i].Raw) != len(tb[i].Raw) {
 			return false
+		}
+		if !isTag(ta[i]) && ta[i].Raw != tb[i].Raw {
+			return false // text, comments: byte for byte (the tokenizer's CR/LF normalisation must not hide a difference)
 		}
 		x, y := []string{}, []string{}
 		for j := range ta[i].Attr {
